@@ -81,6 +81,39 @@ Theorem C04_self_seeded_reproducible :
 Proof. intros. apply self_seeded_reproducible; [exact C04_bracket_as_coded | assumption]. Qed.
 Print Assumptions C04_self_seeded_reproducible.
 
+(* ---- what the bracket guarantees: ONE thread of control over the process-wide generator ---- *)
+
+(* All theorems above run a program by one thread.  Seen from the generator that means: brackets are
+   entered and left in LIFO order.  Stated on its own, for ANY trace of enter/exit operations by ANY
+   number of threads (each exit restores what that thread's bracket saved): if the order is LIFO the
+   generator ends where it started. *)
+Theorem C04_one_thread_of_control :
+  forall (gen : Type) (seed_gen : Z -> gen) (tr : list bstep) (g : gen),
+    lifo tr = true -> run_steps gen seed_gen tr g [] = (g, []).
+Proof. intros. apply lifo_restores. assumption. Qed.
+Print Assumptions C04_one_thread_of_control.
+
+(* every program of the model produces such a trace (this is what the correspondence compares with the
+   np.random.seed / set_state calls really observed, seeds included) *)
+Theorem C04_programs_are_lifo : forall p, lifo (btrace p) = true.
+Proof. exact btrace_lifo. Qed.
+Print Assumptions C04_programs_are_lifo.
+
+(* and the hypothesis is needed: two threads whose brackets overlap without nesting leave the generator
+   in the first one's seeded stream.  Thread interleavings are the subject of C07; here the harness
+   only CHECKS (in Coq, on every observed trace) that the runs it judges were LIFO. *)
+Theorem C04_interleaved_brackets_leak :
+  let tr := [BEnter 1 1; BEnter 2 2; BExit 1; BExit 2] in
+  lifo tr = false /\ fst (run_steps fgen fseed tr g_init []) = fseed 1 /\ fseed 1 <> g_init.
+Proof. exact interleaved_brackets_leak. Qed.
+Print Assumptions C04_interleaved_brackets_leak.
+
+Example C04_trace_witness :
+  btrace (mode_prog MExposure true (Some 0) [Seq (Draw 1) (Seeded (Some 7) (Draw 2)); Draw 3])
+  = [BEnter 0 0; BEnter 0 7; BExit 0; BExit 0] /\
+  lifo [BEnter 3 0; BEnter 3 7; BExit 3; BEnter 4 9; BExit 4; BExit 3] = true.
+Proof. vm_compute. split; reflexivity. Qed.
+
 (* ---- from one interpreter process to another (PYTHONHASHSEED) ---- *)
 
 (* if, in addition, no part of the program runs in an order the process chooses (iteration over a set /
